@@ -1,8 +1,9 @@
 -- GENERATED: symmetry permutations derived from centroid coordinates (n_ring = 6).
 import Dassh.Gen.C08T6
+import Dassh.Lemmas.Equivariance
 
 namespace Dassh.Gen.C07T6
-open Dassh.Table Dassh.Gen.C08T6
+open Dassh.Table Dassh.Equivariance Dassh.Gen.C08T6
 
 def pi_rot1 : Nat := 0xb30b20b10b00af0ae0ad0ac0ab0aa0a90a80a70a60a50a40a30a20a10a009f09e09d09c09b09a0990980970960b90b80b70b60b50b408c08b08a08908808708608508408308208108007f07e07d07c07b07a07907807707607507407307207107006f06e06d06c06b06a06906806706606506406306206106009509409309209109008f08e08d05805705605505405305205105004f04e04d04c04b04a04904804704604504404304204104003f03e03d03c03b03a03903803703605f05e05d05c05b05a05903002f02e02d02c02b02a02902802702602502402302202102001f01e01d01c01b01a01901803503403303203101401301201101000f00e00d00c00b00a009008007006017016015004003002001000005
 def sg_rot1 : Nat := 0x5505405305205105004f04e04d04c04b04a04904804704604504404304204104003f03e03d05a05905805705603803703603503403303203103002f02e02d02c02b02a02902802702602503c03b03a03902102001f01e01d01c01b01a01901801701601501401302402302201000f00e00d00c00b00a009008007012011005004003002001006000
@@ -29,4 +30,21 @@ theorem cert_mir_pin_ok : cert_mir_pin = true := by decide +kernel
 def certs : List Bool := [cert_rot1_cw, cert_rot1_ccw, cert_rot1_pin, cert_mir_cw, cert_mir_ccw, cert_mir_pin]
 theorem certs_ok : certs.all (· = true) = true := by
   simp only [certs, List.all_cons, List.all_nil, decide_true, Bool.and_self, cert_rot1_cw_ok, cert_rot1_ccw_ok, cert_rot1_pin_ok, cert_mir_cw_ok, cert_mir_ccw_ok, cert_mir_pin_ok]
+theorem closed_cw : Closed ncool nb (donorN nint donorCW) := closed_of_certs cert_sym cert_rot1_cw_ok
+theorem closed_ccw : Closed ncool nb (donorN nint donorCCW) := closed_of_certs cert_sym cert_rot1_ccw_ok
+theorem rot_auto_cw : IsAuto ncool tyf nb (donorN nint donorCW) (donorN nint donorCW) (permOf pi_rot1 12) :=
+  isAuto_of_certs cert_sym cert_rot1_cw_ok
+theorem rot_auto_ccw : IsAuto ncool tyf nb (donorN nint donorCCW) (donorN nint donorCCW) (permOf pi_rot1 12) :=
+  isAuto_of_certs cert_sym cert_rot1_ccw_ok
+theorem mir_auto_cw : IsAuto ncool tyf nb (donorN nint donorCW) (donorN nint donorCCW) (permOf pi_mir 12) :=
+  isAuto_of_certs cert_sym cert_mir_cw_ok
+theorem mir_auto_ccw : IsAuto ncool tyf nb (donorN nint donorCCW) (donorN nint donorCW) (permOf pi_mir 12) :=
+  isAuto_of_certs cert_sym cert_mir_ccw_ok
+/-- everything the equivariance theorems need, for this ring count -/
+def Autos : Prop := Closed ncool nb (donorN nint donorCW) ∧ Closed ncool nb (donorN nint donorCCW)
+  ∧ IsAuto ncool tyf nb (donorN nint donorCW) (donorN nint donorCW) (permOf pi_rot1 12)
+  ∧ IsAuto ncool tyf nb (donorN nint donorCCW) (donorN nint donorCCW) (permOf pi_rot1 12)
+  ∧ IsAuto ncool tyf nb (donorN nint donorCW) (donorN nint donorCCW) (permOf pi_mir 12)
+  ∧ IsAuto ncool tyf nb (donorN nint donorCCW) (donorN nint donorCW) (permOf pi_mir 12)
+theorem autos : Autos := ⟨closed_cw, closed_ccw, rot_auto_cw, rot_auto_ccw, mir_auto_cw, mir_auto_ccw⟩
 end Dassh.Gen.C07T6
